@@ -713,14 +713,21 @@ impl<'tcx> Ex<'tcx> {
                 }
                 DefKind::Const { .. } | DefKind::AssocConst { .. } => {
                     let ty = tcx.type_of(did).instantiate_identity().skip_norm_wip();
-                    let scalar = ty.is_integral() || ty.is_bool();
+                    let scalar = ty.is_integral() || ty.is_bool() || ty.is_floating_point();
                     let generic = tcx.generics_of(did).requires_monomorphization(tcx);
                     let mut val: Option<String> = None;
                     if scalar && !generic {
                         if let Ok(v) = tcx.const_eval_poly(did) {
                             if let Some(si) = v.try_to_scalar_int() {
                                 let size = si.size();
-                                val = Some(if ty.is_signed() {
+                                val = Some(if ty.is_floating_point() {
+                                    // floats are exported as their shortest round-trip decimal text
+                                    if size.bytes() == 8 {
+                                        format!("{:?}", f64::from_bits(si.to_uint(size) as u64))
+                                    } else {
+                                        format!("{:?}", f32::from_bits(si.to_uint(size) as u32))
+                                    }
+                                } else if ty.is_signed() {
                                     format!("{}", si.to_int(size))
                                 } else {
                                     format!("{}", si.to_uint(size))
